@@ -1,0 +1,24 @@
+//go:build verif
+// +build verif
+
+package cache
+
+// Verification hooks. Compiled only with the "verif" build tag; add-only.
+
+// VerifKeyLocks returns the number of per-key build locks currently held.
+func (f *Failover) VerifKeyLocks() int {
+	f.lock.Lock()
+	defer f.lock.Unlock()
+
+	return len(f.keyLocks)
+}
+
+// VerifCleanup runs one janitor cycle (delete expired + optional eviction) synchronously.
+func (c *ShardedMap) VerifCleanup() {
+	c.t.invokeCleanup()
+}
+
+// VerifCleanup runs one janitor cycle (delete expired + optional eviction) synchronously.
+func (c *SyncMap) VerifCleanup() {
+	c.t.invokeCleanup()
+}
